@@ -354,12 +354,16 @@ impl MethodDescriptorSlice {
 			bail!("method descriptor {self:?} doesn't start with '('");
 		}
 
-		let mut size = 1; // implicit `this` argument
+		// the size must fit the `u8` count operand of `invokeinterface`; more arguments are an error, not an overflow
+		let add = |size: u8, n: u8| size.checked_add(n)
+			.ok_or_else(|| anyhow!("the arguments of method descriptor {self:?} take more than 255 slots"));
+
+		let mut size: u8 = 1; // implicit `this` argument
 		loop {
 			if chars.next_if_eq(&')').is_some() {
 				break;
 			} else if chars.next_if(|&x| x == 'D' || x == 'J').is_some() {
-				size += 2;
+				size = add(size, 2)?;
 			} else {
 				while chars.next_if_eq(&'[').is_some() { };
 
@@ -372,7 +376,7 @@ impl MethodDescriptorSlice {
 					}
 				}
 
-				size += 1;
+				size = add(size, 1)?;
 			}
 		}
 
